@@ -23,7 +23,7 @@ from typing import Any, Dict, List, Optional, Tuple
 from . import _trees as T
 
 TIERS = {
-    "quick": {"main": 900, "leading": 40, "ratio0": 40, "texts": 1500, "depth": 3, "nrand": 8, "chunk": 10},
+    "quick": {"main": 700, "leading": 30, "ratio0": 30, "texts": 1200, "depth": 3, "nrand": 8, "chunk": 10},
     "thorough": {"main": 24000, "leading": 1000, "ratio0": 1000, "texts": 60000, "depth": 4, "nrand": 14, "chunk": 50},
 }
 CASE_SECONDS = 5.0
@@ -173,7 +173,7 @@ def _work(job) -> Dict[str, Any]:
             rng, d = _tree_for(seed, pool, idx, cfg["depth"])
         sm = T.smin(d)
         nontrivial = T.node_count(d) >= 2
-        sig = T.signature(d)
+        sig = T.sig_key(d)
         out["trees"] += 1
         out["nontrivial_trees"] += int(nontrivial)
         ok, r = T.guarded(lambda: T.build(d), CASE_SECONDS)
@@ -240,37 +240,26 @@ def input_class(d: T.Desc, pool: str) -> str:
 def _minimise(f: Dict[str, Any], cheap: bool = False) -> Dict[str, Any]:
     check, pool = f["check"], f["pool"]
 
-    def probe(desc: T.Desc, w: int):
-        ok, r = T.guarded(lambda: T.build(desc), CASE_SECONDS)
-        if not ok:
+    def probe(desc: T.Desc, r, w: int):
+        if pool == "texts" and text_string(desc) is None:
             return None
         for got in _case_failures(desc, r, w, pool):
             if got[0] == check:
                 return got
         return None
 
-    def fails(desc: T.Desc, hint: int) -> Optional[int]:
-        if pool == "texts" and text_string(desc) is None:
-            return None
-        sm = T.smin(desc)
-        ws = [hint] + [w for w in range(max(0, sm - 1), sm + 9) if w != hint]
-        if pool == "texts":
-            ws.append(widest_line(text_string(desc)))
-        for w in ws:
-            if probe(desc, w) is not None:
-                return w
-        return None
+    def extra(desc: T.Desc) -> List[int]:
+        s = text_string(desc) if pool == "texts" else None
+        return [widest_line(s)] if s is not None else []
 
-    d, w = (f["desc"], f["w"]) if cheap else T.minimise(f["desc"], f["w"], fails, max_evals=1500, max_seconds=5.0)
-    got = probe(d, w)
+    if cheap:
+        d, w = f["desc"], f["w"]
+    else:
+        d, w = T.minimise(f["desc"], f["w"], lambda desc, r, x: probe(desc, r, x) is not None, lambda desc: 0, extra_widths=extra)
+    got = probe(d, T.build(d), w)
     if got is None:
         d, w = f["desc"], f["w"]
-        got = probe(d, w) or (check, f["expected"], f["observed"], f["what"])
-    for w2 in ([] if cheap else range(0, w)):
-        g2 = probe(d, w2)
-        if g2 is not None:
-            w, got = w2, g2
-            break
+        got = probe(d, T.build(d), w) or (check, f["expected"], f["observed"], f["what"])
     _, expected, observed, what = got
     return {"check": check, "what": what, "input_key": T.key_of(d, w, input_class(d, pool)),
             "input": {"tree": d, "available_width": w, "smin": T.smin(d),
@@ -307,20 +296,23 @@ def _aggregate(parts, minimise, classify, tier, cfg, t0, rule, bound) -> Dict[st
     seen_keys = set()
     seen_trees = set()
     seen_classes = set()
-    deadline = time.time() + (25.0 if tier == "quick" else 120.0)  # minimisation is a courtesy, not the check
+    t_min = time.time()
+    budget = 12.0 if tier == "quick" else 90.0  # minimisation is a courtesy, not the check
     ordered = sorted(raw, key=lambda f: (f["check"], T.node_count(f["desc"]), f["w"], f["idx"]))
     for diverse in (True, False):  # first one failure per (clause, input class), then fill up to 3 per clause
         for f in ordered:
             c = f["check"]
             cls = (c, classify(f))
-            if per.get(c, 0) >= 3 or tried.get(c, 0) >= 7 or (c, f["pool"], f["idx"]) in seen_trees:
+            if per.get(c, 0) >= 3 or tried.get(c, 0) >= 4 or (c, f["pool"], f["idx"]) in seen_trees:
                 continue
             if diverse and cls in seen_classes:
                 continue
+            if not diverse and time.time() - t_min > budget / 2:
+                break
             seen_classes.add(cls)
             seen_trees.add((c, f["pool"], f["idx"]))
             tried[c] = tried.get(c, 0) + 1
-            m = minimise(f, time.time() > deadline)
+            m = minimise(f, time.time() - t_min > budget)
             if (c, m["input_key"]) in seen_keys:
                 continue
             seen_keys.add((c, m["input_key"]))
